@@ -2,5 +2,5 @@
 
 package kvh
 
-func poisonBlockPool(n int) {}
+func poisonBlockPool(n int)               {}
 func FillBlockPool(n int, content []byte) {}
